@@ -373,4 +373,85 @@ theorem unquote_quote (pr : Nat → Bool) (s : List Nat) (hb : ∀ b ∈ s, b < 
   unfold unquoteBody quoteBody
   exact unquoteFuel_quoteFuel pr s.length s (Nat.le_refl _) hb _ (Nat.le_refl _)
 
+/-! ### ASCII-only mode (`%+q`, i.e. no rune ≥ 0x80 is printed raw) -/
+
+theorem hexB_lt : ∀ d, d < 16 → hexB d < 0x80 := by decide
+
+theorem escASCII_ascii : ∀ b, b < 0x80 → ∀ x ∈ escASCII b, x < 0x80 := by decide
+
+theorem escX_ascii (b : Nat) (hb : b < 256) : ∀ x ∈ escX b, x < 0x80 := by
+  intro x hx
+  have h1 := hexB_lt (b / 16) (by omega)
+  have h2 := hexB_lt (b % 16) (by omega)
+  simp only [escX, List.mem_cons, List.not_mem_nil, or_false] at hx
+  rcases hx with h | h | h | h <;> subst h <;> omega
+
+theorem escU4_ascii (r : Nat) : ∀ x ∈ escU4 r, x < 0x80 := by
+  intro x hx
+  have h1 := hexB_lt (r / 4096 % 16) (by omega)
+  have h2 := hexB_lt (r / 256 % 16) (by omega)
+  have h3 := hexB_lt (r / 16 % 16) (by omega)
+  have h4 := hexB_lt (r % 16) (by omega)
+  simp only [escU4, List.mem_cons, List.not_mem_nil, or_false] at hx
+  rcases hx with h | h | h | h | h | h <;> subst h <;> omega
+
+theorem escU8_ascii (r : Nat) : ∀ x ∈ escU8 r, x < 0x80 := by
+  intro x hx
+  have h1 := hexB_lt (r / 268435456 % 16) (by omega)
+  have h2 := hexB_lt (r / 16777216 % 16) (by omega)
+  have h3 := hexB_lt (r / 1048576 % 16) (by omega)
+  have h4 := hexB_lt (r / 65536 % 16) (by omega)
+  have h5 := hexB_lt (r / 4096 % 16) (by omega)
+  have h6 := hexB_lt (r / 256 % 16) (by omega)
+  have h7 := hexB_lt (r / 16 % 16) (by omega)
+  have h8 := hexB_lt (r % 16) (by omega)
+  simp only [escU8, List.mem_cons, List.not_mem_nil, or_false] at hx
+  rcases hx with h | h | h | h | h | h | h | h | h | h <;> subst h <;> omega
+
+theorem quoteStep_ascii (s : List Nat) (hb : ∀ b ∈ s, b < 256) :
+    ∀ x ∈ (quoteStep (fun _ => false) s).1, x < 0x80 := by
+  cases s with
+  | nil => intro x hx; simp [quoteStep] at hx
+  | cons b rest =>
+    have hb0 : b < 256 := hb b List.mem_cons_self
+    unfold quoteStep
+    by_cases c1 : b < 0x80
+    · simp only [c1, if_true]; exact escASCII_ascii b c1
+    · simp only [c1, if_false]
+      cases hd : decodeRune (b :: rest) with
+      | none => exact escX_ascii b hb0
+      | some p =>
+        obtain ⟨r, w⟩ := p
+        simp only [Bool.false_eq_true, if_false]
+        by_cases c3 : r < 0x10000
+        · simp only [c3, if_true]; exact escU4_ascii r
+        · simp only [c3, if_false]; exact escU8_ascii r
+
+theorem quoteFuel_ascii : ∀ (n : Nat) (s : List Nat), (∀ b ∈ s, b < 256) →
+    ∀ x ∈ quoteFuel (fun _ => false) n s, x < 0x80 := by
+  intro n
+  induction n with
+  | zero => intro s _ x hx; simp [quoteFuel] at hx
+  | succ n ih =>
+    intro s hb x hx
+    cases s with
+    | nil => simp [quoteFuel] at hx
+    | cons b rest =>
+      simp only [quoteFuel, List.mem_append] at hx
+      rcases hx with h | h
+      · exact quoteStep_ascii (b :: rest) hb x h
+      · exact ih _ (fun y hy => hb y (List.mem_of_mem_drop hy)) x h
+
+/-- In ASCII-only mode the whole literal is ASCII. -/
+theorem quote_ascii (s : List Nat) (hb : ∀ b ∈ s, b < 256) :
+    ∀ x ∈ quote (fun _ => false) s, x < 0x80 := by
+  intro x hx
+  unfold quote quoteBody at hx
+  rcases List.mem_cons.mp hx with h | h
+  · omega
+  · rcases List.mem_append.mp h with h | h
+    · exact quoteFuel_ascii _ s hb x h
+    · have : x = 0x22 := by simpa using h
+      omega
+
 end Avo.Quote
